@@ -244,6 +244,7 @@ end J2O.Gen.C11
 CORPUS = [  # (context, testcase) of the listed defects: always exported, at the opsets named in the property
     ("primitives.lax", "cumprod_i32_axis2"), ("primitives.lax", "cumprod_f32_axism1_reverse"),
     ("primitives.lax", "bitcast_scalar_f32_to_i32"), ("primitives.lax", "bitcast_tensor_i32_to_f32"),
+    ("primitives.jnp", "jnp_cumprod_axis1"),
 ]
 
 NONDETERMINISTIC_OPS = {"RandomNormal", "RandomUniform", "RandomNormalLike", "RandomUniformLike",
